@@ -85,7 +85,7 @@ PROPS = {
         assumptions=["in the store / consensus units notify_watchers is a trusted external that hands one (key,value,version) record to the watchers of the key (a database-level "
                      "log); its REAL try_send loop is verified in unit delivery against a per-channel model (every registration of the key is handed the changed and the "
                      "changed-version line once, nobody else anything) - what stays trusted there: clones of a Sender are handles of the same channel, try_send hands the line to "
-                     "that channel only, and whether a full channel takes the line is not modelled; the `removed <key>` loop of remove_value is still a trusted shim",
+                     "that channel only, and whether a full channel takes the line is not modelled; the `removed <key>` loop of remove_value is verified there too (with the store half of the function dropped - that half is verified in unit store, where the loop is the shim)",
                      "unit sessions (use-db / release_previous_db / Client::left end no subscription): set_connection_counter is a trusted shim that leaves the watcher table alone "
                      "(it writes $connections through set_key_value, whose store contracts frame the watchers)"],
     ),
@@ -247,7 +247,7 @@ PROPS = {
     ),
     "C10": dict(
         units=["store", "consensus", "security", "ids", "oplog", "pending", "parser", "sessions", "http", "election", "snapshot", "sync", "listing", "permissions", "replies", "oplogflag", "members", "delivery", "outbox"],
-        reachable={"delivery": ["Database::notify_watchers", "Database::send_message_to_arbiter_client"], "outbox": ["process_request", "replicate_request", "get_replicate_message", "get_replicate_remove_message", "get_replicate_increment_message", "get_resolve_message"], "members": ["Databases::add_cluster_member", "Databases::promote_member", "Databases::remove_cluster_member"], "oplogflag": ["invalidate_oplog", "mark_op_log_as_valid", "snapshot_keys", "generate_key_id", "arm_replicate_set", "arm_replicate_increment", "arm_replicate_remove"], "replies": ["get_key_value", "get_key_value_safe", "arm_get", "arm_get_safe", "arm_keys"], "permissions": ["Permission::from", "Permission::permissions_from_str", "From<char>@PermissionKind::from", "has_permission"], "listing": ["Database::list_keys", "filter_system_keys", "get_function_by_pattern", "starts_with", "ends_with", "contains", "Database::list_conflicts_keys",
+        reachable={"delivery": ["Database::notify_watchers", "Database::send_message_to_arbiter_client", "Database::remove_value"], "outbox": ["process_request", "replicate_request", "get_replicate_message", "get_replicate_remove_message", "get_replicate_increment_message", "get_resolve_message"], "members": ["Databases::add_cluster_member", "Databases::promote_member", "Databases::remove_cluster_member"], "oplogflag": ["invalidate_oplog", "mark_op_log_as_valid", "snapshot_keys", "generate_key_id", "arm_replicate_set", "arm_replicate_increment", "arm_replicate_remove"], "replies": ["get_key_value", "get_key_value_safe", "arm_get", "arm_get_safe", "arm_keys"], "permissions": ["Permission::from", "Permission::permissions_from_str", "From<char>@PermissionKind::from", "has_permission"], "listing": ["Database::list_keys", "filter_system_keys", "get_function_by_pattern", "starts_with", "ends_with", "contains", "Database::list_conflicts_keys",
                                "Database::has_pendding_conflict", "Database::register_arbiter"], "sync": ["make_create_db_command", "get_full_sync_opps", "get_pendding_opps_since"], "snapshot": ["get_keys_to_update", "write_metadata_file", "load_db_metadata_from_disk_or_empty", "ConsensuStrategy::to_le_bytes", "From<i32>@ConsensuStrategy::from", "NodeDrive::storage_data_disk", "write_value", "write_key", "update_key", "write_new_key_value", "get_key_disk_size", "create_db_from_file_name", "ValueStatus::to_le_bytes"], "http": ["process_commands"], "election": ["op_set_primary", "op_set_scoundary", "election_eval", "start_election", "start_new_election", "election_win", "Databases::get_role", "Databases::is_eligible", "Databases::is_primary", "From<usize>@ClusterRole::from"], "store": STORE_FNS, "security": SECURITY_FNS, "pending": ["ReplicationMessage::new", "ReplicationMessage::ack", "ReplicationMessage::replicated", "ReplicationMessage::is_full_acknowledged",
                    "ReplicationMessage::count_replication", "ReplicationMessage::count_acknowledged", "ReplicationMessage::get_copy", "Databases::register_pending_opp",
                    "Databases::acknowledge_pending_opp", "Databases::get_pending_opp_copy", "replicate_message_to_all", "replicate_message_to_secoundary"],
